@@ -48,6 +48,7 @@ theorem toRawTextMode_shape {s s' : State} {r x : Id} {up0 : List Id} {ph : Phas
     {res : ProcessResult} (hc : Core s r (up0 ++ [x]) ph) (h1 : s.mode ≠ .text) (h2 : s.mode ≠ .inTableText)
     (hfit : Fits s.dom s.headElem s.mode up0 ph)
     (hx : htmlIn (nm s.dom x) ["table", "tbody", "tfoot", "thead", "tr", "template"] = false)
+    (hxns : (nm s.dom x).ns = nsHtml)
     (e : toRawTextMode k s = .ok (res, s')) : Good r s' ∧ NoRe res := by
   unfold toRawTextMode at e
   obtain ⟨u, s1, e1, e2⟩ := bind_ok.mp e
@@ -57,7 +58,7 @@ theorem toRawTextMode_shape {s s' : State} {r x : Id} {up0 : List Id} {ph : Phas
     ⟨(by intro m t h; cases h), (by intro t h; cases h)⟩⟩
   show FitsM _ (up0 ++ [x]) ph
   unfold FitsM
-  exact ⟨s.mode, up0, x, rfl, rfl, h1, h2, hfit, hx⟩
+  exact ⟨s.mode, up0, x, rfl, rfl, h1, h2, hfit, hx, hxns⟩
 
 
 /-- the outcome of the arms of the InHead rules that do not change the mode (except into Text) -/
@@ -66,7 +67,7 @@ inductive HeadOut (r : Id) (s : State) (up : List Id) (ph : Phase) (s' : State) 
       s'.origMode = s.origMode → s'.openElems = s.openElems → NoRe res → HeadOut r s up ph s' res
   | text (el : Id) : Core s' r (up ++ [el]) ph → SameNames s.dom s'.dom up → s'.headElem = s.headElem →
       s'.mode = .text → s'.origMode = some s.mode → s'.openElems = s.openElems ++ [el] →
-      keepName (nm s'.dom el) = false → NoRe res →
+      keepName (nm s'.dom el) = false ∧ (nm s'.dom el).ns = nsHtml → NoRe res →
       HeadOut r s up ph s' res
 
 /-- `parse_raw_data` below an inner node -/
@@ -83,9 +84,9 @@ theorem head_raw {s s' : State} {r t : Id} {up : List Id} {ph : Phase} {tag : Ta
   rw [modS_ok.mp e3]
   refine .text el (hc1.modes rfl (by intro o ho'; cases ho'; exact hc1.late.ml.mode)) hsn hh rfl
     (by show some s1.mode = _; rw [hm]) hst ?_ ⟨(by intro m t h; cases h), (by intro t h; cases h)⟩
-  show keepName (nm s1.dom el) = false
+  show keepName (nm s1.dom el) = false ∧ (nm s1.dom el).ns = nsHtml
   rw [hnm]
-  exact hk
+  exact ⟨hk, rfl⟩
 
 /-- the `<script>` arm below an inner node -/
 theorem head_script {s s' : State} {r t : Id} {up : List Id} {ph : Phase} {tag : Tag} {res : ProcessResult}
@@ -170,9 +171,9 @@ theorem head_script {s s' : State} {r t : Id} {up : List Id} {ph : Phase} {tag :
     · show s6.headElem = _; rw [hs6]; exact hfields.1
     · show some s6.mode = _; rw [hs6]; show some s4.mode = _; rw [hfields.2.1]
     · show s6.openElems = _; rw [hs6]; show s4.openElems ++ [el] = _; rw [hst4]
-    · show keepName (nm s6.dom el) = false
-      rw [hs6]; show keepName (nm s4.dom el) = false
-      rw [hnm5]; decide
+    · show keepName (nm s6.dom el) = false ∧ (nm s6.dom el).ns = nsHtml
+      rw [hs6]; show keepName (nm s4.dom el) = false ∧ (nm s4.dom el).ns = nsHtml
+      rw [hnm5]; exact ⟨by decide, rfl⟩
   rcases ite_run e4 with ⟨_, e4⟩ | ⟨_, e4⟩
   · obtain ⟨_, s3, e5, e6⟩ := bind_ok.mp e4
     exact tail s3 (qs_sinkUnit e5) e6
@@ -346,7 +347,7 @@ theorem modeOk_inHead (T : TmplOk .inHead) : ModeOk .inHead := by
       unfold FitsM
       rw [hmd]
       exact ⟨.inHead, [h], el, by rw [hod, hm], rfl, by decide, by decide, ⟨h, by rw [hhd]; exact hh, rfl, rfl⟩,
-        not_in_of_keepName_false hx (by decide)⟩
+        not_in_of_keepName_false hx.1 (by decide), hx.2⟩
   · cases hsp with
     | split text h1 h2 h3 => subst h2; subst h3; exact hg
     | noscript tag h1 h2 h3 e0 =>
